@@ -78,8 +78,8 @@ UNITS["C13"] = [
     dict(test="TestC13_Histories", race=True, crash_is_violation=True,
          quick=dict(checks=60, shards=5, shrinktime="5s"), thorough=dict(checks=1500, shards=8, shrinktime="10s")),
     dict(test="TestC13_Hammer", race=True, crash_is_violation=True,
-         quick=dict(checks=3, shards=3, shrinktime="5s"), thorough=dict(checks=30, shards=8, shrinktime="10s")),
-    dict(test="TestC13_Quiet", quick=dict(checks=600, shards=2), thorough=dict(checks=20000, shards=8)),
+         quick=dict(checks=3, shards=3, shrinktime="5s"), thorough=dict(checks=8, shards=8, shrinktime="10s")),
+    dict(test="TestC13_Quiet", quick=dict(checks=600, shards=2), thorough=dict(checks=5000, shards=8)),
     dict(test="TestC13_Orders", quick=dict(checks=60, shards=2, shrinktime="10s"), thorough=dict(checks=1500, shards=8, shrinktime="20s")),
     dict(test="TestC13_Histories", race=True, crash_is_violation=True,
          quick=dict(skip=True), thorough=dict(checks=1500, shards=8, shrinktime="10s", env={"GOMAXPROCS": "2"})),
